@@ -700,3 +700,114 @@ func RunUnencodableSaveThenRestartCase(seed int64, workDir string) *HistResult {
 	}
 	return res
 }
+
+// RunPurgeAllThenRestartCase (C10 on the REAL JsonDataStore; seed C10-m): a save that leaves NO job at all - every job
+// belonged to a pipeline that a reload removed, or every finished job is past its retention period - is a snapshot like
+// any other: a runner restarted on the data directory reports exactly the jobs that the old runner reported after its last
+// save, in particular none that the save had removed. Variants (seed%4): 0 the only pipeline with jobs is removed, 1 all
+// pipelines are removed, 2 retention_period of one nanosecond, 3 control (one of two pipelines with jobs is removed).
+func RunPurgeAllThenRestartCase(seed int64, workDir string) *HistResult {
+	res := &HistResult{Seed: seed, Situations: map[string]map[string]struct{}{}, Evaluations: map[string]int{}}
+	find := func(sig, format string, args ...any) {
+		res.Findings = append(res.Findings, Finding{Props: []string{"C10", "C12"}, Sig: sig, Detail: fmt.Sprintf(format, args...), Step: -1})
+	}
+	dir, err := os.MkdirTemp(workDir, "purge-")
+	if err != nil {
+		res.Inconclusive = err.Error()
+		return res
+	}
+	defer os.RemoveAll(dir)
+	js, err := store.NewJSONDataStore(dir)
+	if err != nil {
+		res.Inconclusive = err.Error()
+		return res
+	}
+	variant := int(seed % 4)
+	mkDef := func() definition.PipelineDef {
+		return definition.PipelineDef{Concurrency: 2, SourcePath: "gen", Tasks: map[string]definition.TaskDef{"t": {Script: []string{"true"}}}}
+	}
+	pipes := map[string]definition.PipelineDef{"p": mkDef(), "q": mkDef(), "idle": mkDef()}
+	if variant == 2 {
+		d := mkDef()
+		d.RetentionPeriod = time.Nanosecond
+		pipes["p"] = d
+	}
+	sys, err := core.NewSys(&definition.PipelinesDef{Pipelines: pipes}, js, core.NewMemOutputStore())
+	if err != nil {
+		res.Inconclusive = err.Error()
+		return res
+	}
+	withJobs := []string{"p"}
+	if variant == 1 || variant == 3 {
+		withJobs = []string{"p", "q"}
+	}
+	n := 0
+	for _, p := range withJobs {
+		for i := 0; i < 1+int(seed/4)%3; i++ {
+			if _, cls := sys.Schedule(0, p, map[string]interface{}{"n": float64(i)}, "u"); cls != "ok" {
+				res.Inconclusive = "schedule: " + cls
+				sys.Close()
+				return res
+			}
+			n++
+			if variant != 2 {
+				DrainAll(sys)
+			}
+		}
+	}
+	sys.Save(1) // the jobs reach the store (variant 2: while they are still running or waiting - a save never removes such a job)
+	DrainAll(sys)
+	after := map[string]definition.PipelineDef{}
+	for name, d := range pipes {
+		after[name] = d
+	}
+	switch variant {
+	case 0, 3:
+		delete(after, "p")
+	case 1:
+		after = map[string]definition.PipelineDef{}
+	}
+	if variant != 2 {
+		sys.Replace(1, &definition.PipelinesDef{Pipelines: after}, "remove pipelines")
+	}
+	for i := 0; i < 1+int(seed/12)%2; i++ {
+		sys.Save(1)
+	}
+	last := sys.Snapshot(-1)
+	sys.Close()
+	res.sit("C10", fmt.Sprintf("variant %d: %d finished jobs, then a save after which %d jobs are reported; restart", variant, n, len(last.Jobs)))
+	res.Evaluations["C10"]++
+	var specs []gen.PipeSpec
+	for name, d := range after {
+		specs = append(specs, gen.PipeSpec{Name: name, Def: d, Graph: gen.Graph{Names: []string{"t"}, Deps: map[string][]string{}}})
+	}
+	sort.Slice(specs, func(i, j int) bool { return specs[i].Name < specs[j].Name })
+	if _, err := os.Stat(filepath.Join(dir, "data.json")); err != nil {
+		if len(last.Jobs) > 0 {
+			find("C10:jobs-lost-or-duplicated-by-restart", "variant %d: %d jobs are reported after the last save, but there is no data file", variant, len(last.Jobs))
+		}
+		return res
+	}
+	sys2, err := RestartOn(filepath.Join(dir, "data.json"), specs, dir)
+	if err != nil {
+		find("C10:restart-fails-on-persisted-snapshot", "variant %d: a runner cannot be started on the data directory after a save that left %d jobs: %v", variant, len(last.Jobs), err)
+		return res
+	}
+	defer sys2.Close()
+	v := sys2.Snapshot(-1)
+	for i := range v.Jobs {
+		if last.ByID(v.Jobs[i].ID) == nil {
+			find("C10:jobs-lost-or-duplicated-by-restart", "variant %d: job %s of pipeline %s is reported after the restart, but the old runner did not report it any more after its last save (%d jobs reported then, %d after the restart): the save that removed it did not reach the store", variant, v.Jobs[i].ID, v.Jobs[i].Pipeline, len(last.Jobs), len(v.Jobs))
+			break
+		}
+	}
+	if variant != 2 {
+		for i := range last.Jobs {
+			if v.ByID(last.Jobs[i].ID) == nil {
+				find("C10:jobs-lost-or-duplicated-by-restart", "variant %d: job %s was reported after the last save and is not reported after the restart", variant, last.Jobs[i].ID)
+				break
+			}
+		}
+	}
+	return res
+}
